@@ -63,9 +63,21 @@ fn main() {
     let scts = cat::scts(thorough);
     let lists = cat::sct_lists(thorough);
     let (ns, nl) = (scts.len(), lists.len());
+    // the large boundary sizes (65000-byte extensions / signatures) also in the quick tier, undeviated + single deviations
+    if !thorough {
+        let big_s: Vec<W> = cat::scts(true).into_iter().filter(|w| w.buf.len() > 1000).collect();
+        let big_l: Vec<W> = cat::sct_lists(true).into_iter().filter(|w| w.buf.len() > 30000).collect();
+        sink.merge(struct_sweep(&run, &[&SCT], &big_s, 1, &sfx, 24, &extra));
+        sink.merge(struct_sweep(&run, &[&SCT_LIST], &big_l, 1, &sfx, 24, &extra));
+    }
     sink.merge(struct_sweep(&run, &[&SCT], &scts, d, &sfx, 96, &extra));
     sink.merge(struct_sweep(&run, &[&SCT_LIST], &lists, d, &sfx, 96, &extra));
     sink.merge(struct_sweep(&run, &[&SCT_LIST], &cat::sct_lists_many(), run.tier.pick(0, 1), &sfx, 32, &extra));
+    for style in [1u8, 3, 4] {
+        use vcommon::en::with_fill_style as wfs;
+        sink.merge(struct_sweep(&run, &[&SCT], &wfs(style, || cat::scts(false)), 0, &sfx, 96, &extra));
+        sink.merge(struct_sweep(&run, &[&SCT_LIST], &wfs(style, || cat::sct_lists(false)), 0, &sfx, 96, &extra));
+    }
     // single entries are also lists-of-bytes for the list parser and vice versa (nesting confusion)
     sink.merge(struct_sweep(&run, &[&SCT_LIST], &scts, 0, &sfx, 96, &extra));
     sink.merge(struct_sweep(&run, &[&SCT], &lists, 0, &sfx, 96, &extra));
